@@ -315,7 +315,7 @@ def gen_rw(rng, g):
     elif r < 0.6:
         op = ['encapsulate']
     elif r < 0.75:
-        op = ['split', rng.randrange(max(nch, 1))]
+        op = ['split', rng.randrange(max(nch, 1))] + (['neg'] if rng.random() < 0.3 else [])
     elif r < 0.85:
         op = ['split_default']
     else:
@@ -360,7 +360,8 @@ def run_rw(case, build_loop, windows):
         elif op[0] == 'encapsulate':
             loop.encapsulate()
         elif op[0] == 'split':
-            loop.split_one_child(op[1])
+            # the same child addressed by its negative index (round 4): the rewrite must be the same
+            loop.split_one_child(op[1] - len(loop) if len(op) > 2 and op[1] < len(loop) else op[1])
         elif op[0] == 'split_default':
             loop.split_one_child()
         elif op[0] == 'merge':
@@ -543,6 +544,16 @@ def run_vol(case, build_pt, num, windows):
     if prog is None:
         return {'none': True}
     obs = {'ws1': windows(prog)}
+    if case.get('side') == 'corr':
+        # cleanup() of a program with volatile counts (merging a single child into / out of a volatile repetition)
+        try:
+            pc = pt.create_program(parameters=env, measurement_mapping=mm, volatile=set(case['vol']))
+            pc.cleanup()
+            obs['wsv_clean'] = windows(pc)
+        except vlib.Timeout:
+            raise
+        except Exception as e:
+            obs['wsv_clean'] = ['crash', type(e).__name__]
     _update_all(prog, {k: env2[k] for k in case['vol']})
     obs['ws2'] = windows(prog)
     from qupulse.plotting import _render_loop
